@@ -3,8 +3,8 @@ CONSTANTS
   NG = 2
   MAXCALLS = 5
   MAXFIT = 2
-  NP = 1
-  E = 3
+  NP = 2
+  E = 2
   LAST_WINS = FALSE
   DROP_SETT = FALSE
 INVARIANT NoBad
